@@ -143,7 +143,7 @@ CHECKS["C15"] = dict(
 CHECKS["C18"] = dict(
     category="fault_enumeration",
     technique="explicit-state search (BX) over disk-operation/reload histories and exhaustive fault enumeration (every truncation prefix, a disk change at every point inside a reload) on the real CertReloader with real files and real TLS handshakes",
-    text="Every history of depth 3 (thorough 4) plus a final reload over {write cert or key of pairs B, C and the long-expired D (each file alone = both orders of a two-file update), truncate cert/key, garbage, delete, path-is-a-directory (an I/O error other than 'not found'), reload}; every byte prefix of the certificate and of the key file; a disk operation landing at each of 5 synchronous points inside a reload for 6 pre-states. After every step a real in-memory TLS handshake against the current acceptor yields the presented leaf; get_cert_info / reload count / last-reload are snapshotted: a failed reload must change nothing, a successful one must serve the pair that was on disk, report that certificate's info, bump the count; the leaf served is always one loaded together with its key; a TLS connection made before the history still carries data. Two overlapping reloads: reload A parked at each of the 5 points, the files change to another valid pair, reload B on a second thread (it may finish or wait), A resumes — served and reported certificate belong together and the pair on disk is served. Materials also share attributes (same key and serial, same serial with a new key) and include CA-issued leaves in chain files (leaf first, CA first, expired leaf behind a valid CA); plus a real Server built on the reloader's shared acceptor (as bin/server.rs does) whose fresh TCP+TLS connections are checked after every step of a 9-step reload history.",
+    text="Every history of depth 3 (thorough 4) plus a final reload over {write cert or key of pairs B, C and the long-expired D (each file alone = both orders of a two-file update), truncate cert/key, garbage, delete, path-is-a-directory (an I/O error other than 'not found'), reload}; every byte prefix of the certificate and of the key file; a disk operation landing at each of 5 synchronous points inside a reload for 6 pre-states, and — for reloads that meet an I/O error on a first read (path is a directory, file missing) — at the SECOND arrival at a read point (a reload that reads its files again). After every step a real in-memory TLS handshake against the current acceptor yields the presented leaf; get_cert_info / reload count / last-reload are snapshotted: a failed reload must change nothing, a successful one must serve the pair that was on disk, report that certificate's info, bump the count; the leaf served is always one loaded together with its key; a TLS connection made before the history still carries data. Two overlapping reloads: reload A parked at each of the 5 points, the files change to another valid pair, reload B on a second thread (it may finish or wait), A resumes — served and reported certificate belong together and the pair on disk is served. Materials also share attributes (same key and serial, same serial with a new key) and include CA-issued leaves in chain files (leaf first, CA first, expired leaf behind a valid CA); plus a real Server built on the reloader's shared acceptor (as bin/server.rs does) whose fresh TCP+TLS connections are checked after every step of a 9-step reload history.",
     note="Trusted: rcgen material, real files under /verif/scratch (removed afterwards), H10 sync points between the reload's file reads; which certificates count as expired is not fixed by the property (only the long-expired pair is used).",
     design="DESIGN.md §6 C18",
 )
